@@ -2658,10 +2658,12 @@ def repartition_npartitions(bag, npartitions):
 
     new_name = f"repartition-{npartitions}-{tokenize(bag, npartitions)}"
     if bag.npartitions > npartitions:
-        ratio = bag.npartitions / npartitions
+        # integer arithmetic: ``int(i * (n / m))`` can fall one short of
+        # ``i * n // m`` (e.g. 11 * (15 / 11) == 14.999...), which left the last
+        # boundary below ``bag.npartitions`` and produced one partition too many
         new_partitions_boundaries = [
-            int(old_partition_index * ratio)
-            for old_partition_index in range(npartitions + 1)
+            new_partition_index * bag.npartitions // npartitions
+            for new_partition_index in range(npartitions + 1)
         ]
         return _repartition_from_boundaries(bag, new_partitions_boundaries, new_name)
     else:  # npartitions > bag.npartitions
